@@ -5,7 +5,8 @@
 // `ft_prec`), normalised.  The primitive `str` is modelled by an opaque stub type with the contracts of the core::str
 // methods on ASCII strings; `UBig::from_str_radix` is seen through its documented contract (positional value).
 // (The wrapper `FBig::from_str_native` is unit float_parse_fbig: FN names must be unique inside a unit.)
-// KNOWN DEFECT REGIONS excluded by precondition: an inner '+' (plus_ok), a scale close to isize::MIN (scale_ok).
+// The former defect regions (an inner '+', a scale close to isize::MIN) are repaired in the code (proposed_fixes IO2, IO3):
+// no exclusion is left; isize overflow inside Repr::new (normalisation) is not modelled by its stub.
 #![allow(unused_imports, unused_variables, dead_code, non_snake_case, unused_mut, unused_parens, unused_braces, non_camel_case_types, unused_assignments)]
 use vstd::prelude::*;
 verus! {
